@@ -209,7 +209,14 @@ func c01Stream(r *hx.Rand, tier string, n int, w *bufio.Writer) map[string]int {
 			case 1:
 				claims["sub"] = hx.Pick(r, "", "x")
 			case 2:
-				claims["aud"] = hx.Pick[any](r, []string{}, []string{"x"}, []string{cid, "x"}, []string{"x", cid, "y"}, cid, "x", []string{cid, cid})
+				claims["aud"] = hx.Pick[any](r, []string{}, []string{"x"}, []string{cid, "x"}, []string{"x", cid, "y"}, cid, "x", []string{cid, cid},
+					// (round 4) ONE audience that merely contains the client id (space / comma separated text is not a list), null, a number,
+					// an array with a member that is not a string (not an audience: the payload is not a decodable ID Token)
+					cid+" x", "x "+cid, cid+",x", []string{cid + " x"}, []string{"x," + cid}, nil, 5, []any{cid, 5})
+				if _, plain := claims["aud"].([]string); r.Chance(50) && !plain {
+					// ... with an azp that would fit if the text were read as a list of audiences
+					claims["azp"] = cid
+				}
 			case 3:
 				claims["azp"] = hx.Pick(r, cid, "x", "")
 				if r.Chance(30) {
@@ -222,7 +229,7 @@ func c01Stream(r *hx.Rand, tier string, n int, w *bufio.Writer) map[string]int {
 					delete(claims, "exp")
 				}
 			case 5:
-				claims["iat"] = sec + offS + int64(hx.Pick(r, -2, -1, 0, 1, 2, 3))
+				claims["iat"] = sec + offS + int64(hx.Pick(r, -2, -1, 0, 1, 2, 3, 3600))
 				if r.Chance(15) {
 					delete(claims, "iat")
 				}
@@ -276,6 +283,48 @@ func c01Stream(r *hx.Rand, tier string, n int, w *bufio.Writer) map[string]int {
 				untrustedKid = hx.Pick(r, map[string]string{"RSA": "k-rsa", "EC": "k-ec", "OKP": "k-ed"}[key.Kty], "k-unknown")
 			}
 		}
+		// ---- (round 4) HOW the time claims are written: every legal JSON number spelling of the same second (fraction, exponent
+		// forms), RFC 3339 strings, and spellings that name another value or none (negative, zero, null, far future, beyond
+		// int64, strings of digits, other types); the claim's meaning is the harness's own exact reading (c01time.go)
+		spelled := map[string]c01Spelled{}
+		if r.Chance(40) {
+			present := []string{}
+			for _, k := range []string{"exp", "iat", "auth_time", "nbf"} {
+				if _, ok := claims[k].(int64); ok {
+					present = append(present, k)
+				}
+			}
+			if _, ok := claims["nbf"]; !ok && r.Chance(20) {
+				claims["nbf"] = sec - 5
+				present = append(present, "nbf")
+			}
+			for j := hx.Pick(r, 1, 1, 2, 3); j > 0 && len(present) > 0; j-- {
+				k := hx.Pick(r, present...)
+				if _, done := spelled[k]; done {
+					continue
+				}
+				v := claims[k].(int64)
+				var raw, kind string
+				switch {
+				case nmut == 0 && eff.maxIAT == 0 && k == "iat" && r.Chance(3):
+					// an instant in the last 62135596800 seconds of the int64 range (exactly representable as a double)
+					raw, kind = hx.Pick(r, "9223372036854774784", "9223372036800000000", "9.223372036854774784e18"), "int64-top"
+				case r.Chance(75):
+					raw, kind = c01SpellSame(r, v)
+				default:
+					raw, kind = c01SpellOther(r, v)
+				}
+				sp := c01ReadTime(raw, kind)
+				sp.wrap = kind == "int64-top"
+				spelled[k] = sp
+				claims[k] = sp
+				stats["spell-"+kind]++
+				stats["spell-claim-"+k]++
+			}
+		}
+		if len(spelled) > 0 {
+			stats["spelled-tokens"]++
+		}
 		kid := ""
 		if mode == "rp" {
 			kid = kidOf[key.No]
@@ -290,6 +339,24 @@ func c01Stream(r *hx.Rand, tier string, n int, w *bufio.Writer) map[string]int {
 			continue
 		}
 		_, decOK := hx.DecodeIDClaims(payload)
+		audDoc, audItems, audBad := c01AudDoc(claims)
+		if audBad {
+			if decOK {
+				stats["aud-decodable-disagrees-with-library"]++
+			}
+			decOK = false
+		}
+		if len(spelled) > 0 {
+			// is the payload decodable? by the harness's own reading: every spelled time claim is a documented form in range
+			own := !audBad
+			for _, sp := range spelled {
+				own = own && sp.ok
+			}
+			if own != decOK {
+				stats["spell-decodable-disagrees-with-library"]++
+			}
+			decOK = own
+		}
 		// (code exchange) now and then the token response carries no id_token at all
 		missing := mode == "rp" && path == "code" && r.Chance(4)
 		if missing {
@@ -356,6 +423,15 @@ func c01Stream(r *hx.Rand, tier string, n int, w *bufio.Writer) map[string]int {
 				// OIDC Core 2), not what the library's struct tags / getters make of it
 				c01ClaimsKV(l, "c.", claims, symHash)
 			}
+			c01SpellLine(l, spelled)
+			if audDoc != "" {
+				l.S("au.doc", audDoc).L("au.v", audItems).B("au.bad", audBad)
+			}
+			for _, sp := range spelled {
+				if sp.wrap {
+					l.B("sp.top", true)
+				}
+			}
 			l.B("t.jws", true).I("j.bytes", 1).I("j.n", 1)
 			l.S("s0.alg", alg).S("s0.kid", kid).I("s0.signer", int64(key.No)).S("s0.salg", alg).I("s0.sbytes", 1).S("s0.shalg", alg).S("s0.shkid", kid)
 		}
@@ -399,6 +475,8 @@ func c01ClaimsKV(l *hx.Line, p string, m map[string]any, symHash func(string) st
 			return v
 		case int:
 			return int64(v)
+		case c01Spelled:
+			return v.val // the harness's own exact reading of the spelled claim
 		}
 		return 0
 	}
